@@ -1320,6 +1320,8 @@ class Exec(object):
                         self.ctx.private_g = set()
                     self.ctx.private_g.add(g.val)
                     self.ctx.assume(lt(g, NEGFAR))
+                    # a package variable has been there from the start: it counts as existing at every allocation bound
+                    self.ctx.assume(eq(self.root(g), ZERO))
                 else:
                     self.ctx.assume(gt_(g))
                     if self.alloc0 is not None:
